@@ -18,20 +18,19 @@ open BC BC.Model BC.Gen BC.Lemmas.VecL
 
 /-! ### solver settings -/
 
-/-- **C18_config_merge** (full): every one of the eight settings is the override if given, else the default;
-    the default maximum step is the CURRENT global step. -/
+/-- **C18_config_merge** (full): every one of the eight settings is the override if given, else the default read off the
+    current source (the REGENERATED module constants; the two documented numbers, standard gravity and the 0.5 ft step, are
+    pinned in `C18_defaults`); the default maximum step is the CURRENT global step. -/
 theorem C18_config_merge (g : ℝ) (o : Overrides ℝ) :
     (createConfig g o).maxCalcStep = o.maxCalcStep.getD g ∧
-    (createConfig g o).chartResolution = o.chartResolution.getD 0.2 ∧
-    (createConfig g o).zeroAccuracy = o.zeroAccuracy.getD 0.000005 ∧
-    (createConfig g o).minVelocity = o.minVelocity.getD 50 ∧
-    (createConfig g o).maxDrop = o.maxDrop.getD (-15000) ∧
-    (createConfig g o).maxIterations = o.maxIterations.getD 20 ∧
-    (createConfig g o).gravity = o.gravity.getD (-32.17405) ∧
-    (createConfig g o).minAltitude = o.minAltitude.getD (-1410.748) := by
-  refine ⟨rfl, ?_, ?_, ?_, ?_, rfl, ?_, ?_⟩ <;>
-    simp only [createConfig, defaultConfig, globalChartResolution, cZeroFindingAccuracy, cMinimumVelocity,
-      cMaximumDrop, cGravityConstant, cMinimumAltitude] <;> norm_num
+    (createConfig g o).chartResolution = o.chartResolution.getD globalChartResolution ∧
+    (createConfig g o).zeroAccuracy = o.zeroAccuracy.getD cZeroFindingAccuracy ∧
+    (createConfig g o).minVelocity = o.minVelocity.getD cMinimumVelocity ∧
+    (createConfig g o).maxDrop = o.maxDrop.getD cMaximumDrop ∧
+    (createConfig g o).maxIterations = o.maxIterations.getD cMaxIterations_nat ∧
+    (createConfig g o).gravity = o.gravity.getD cGravityConstant ∧
+    (createConfig g o).minAltitude = o.minAltitude.getD cMinimumAltitude := by
+  refine ⟨rfl, rfl, rfl, rfl, rfl, rfl, rfl, rfl⟩
 
 /-- **C18_defaults** (full, regenerated): documented defaults — standard gravity, 0.5 ft initial global step — and
     the mapping of defaults to configuration fields, read off the current source. -/
